@@ -119,7 +119,11 @@ def compute_renames(repo, table=None):
     cur = {q: f for q, f in repo.fns.items() if "@" not in q}
     missing = [q for q in table if q not in cur]
     fresh = [q for q in cur if q not in table]
-    if not missing or not fresh:
+    if not missing:
+        return {}, []
+    # functions whose name is recorded but whose signature is not the recorded one are candidates too (see below)
+    fresh += [q for q in cur if q in table and features(cur[q])[0] != table[q]["sig"]]
+    if not fresh:
         return {}, []
     known_names = {r["name"] for r in table.values()}
     cur_names = {f.name for f in cur.values()}
@@ -145,7 +149,16 @@ def compute_renames(repo, table=None):
                 if c in taken or f.module != r["module"] or (f.self_ty or "") != r["self_ty"] or (f.trait or "") != r["trait"]:
                     continue
                 if f.name in known_names:
-                    continue  # an existing name of the reference tree is never reinterpreted
+                    # an existing name of the reference tree is reinterpreted only when the function that bears it now is clearly not
+                    # the recorded one (a wrapper was deleted and its worker took over the name)
+                    own = table.get(c)
+                    if own is None:
+                        continue
+                    osig, ofe = cf.get(c) or features(f)
+                    ow = set(own["feats"])
+                    oj = len(ow & ofe) / len(ow | ofe) if (ow | ofe) else 1.0
+                    if osig == own["sig"] or oj >= 0.5:
+                        continue
                 sig, feats = cf[c]
                 feats = canon(feats)
                 union = want | feats
